@@ -2327,7 +2327,16 @@ class Transport(threading.Thread, ClosingContextManager):
             except Exception as e:
                 self._log(ERROR, "Unknown exception: " + str(e))
                 self._log(ERROR, util.tb_strings())
-                self.saved_exception = e
+                # Whatever went wrong while handling the peer's data, callers
+                # of start_client/start_server/auth_*/get_exception are
+                # promised an SSHException; the original is kept as its cause.
+                wrapped = SSHException(
+                    "Internal error in transport thread: {}: {}".format(
+                        type(e).__name__, e
+                    )
+                )
+                wrapped.__cause__ = e
+                self.saved_exception = wrapped
             _active_threads.remove(self)
             for chan in list(self._channels.values()):
                 chan._unlink()
